@@ -66,6 +66,8 @@ type input struct {
 	NoCoq   bool        `json:"nocoq,omitempty"`  // too large for the in-Coq evaluation
 	Expect  string      `json:"expect,omitempty"` // "ok": a structured, unmodified message must be accepted
 	Batch   []input     `json:"batch,omitempty"`  // kind "batch": run all (used for the child process)
+	Pad     uint32      `json:"pad,omitempty"`    // frame: Stream is followed by Pad copies of PadByte (30 MiB bodies)
+	PadByte byte        `json:"pad_byte,omitempty"`
 }
 
 // ---------- finding classes ----------
@@ -635,6 +637,10 @@ func frame(magic uint32, cmd string, payload []byte) []byte {
 
 func doFrame(c *hx.Ctx, in input) {
 	stream := hx.UnHex(in.Stream)
+	if in.Pad > 0 {
+		stream = append(stream, bytes.Repeat([]byte{in.PadByte}, int(in.Pad))...)
+		in.NoCoq = true
+	}
 	c.Eval()
 	config.DefConfig.P2PNode.NetworkMagic = in.Magic
 	var msg types.Message
@@ -687,6 +693,9 @@ func doFrame(c *hx.Ctx, in input) {
 		c.Fail("panic:frame", "ReadMessage panicked", in, pmsg, "message or error")
 		out = "FoErr (KDecode CPanic)"
 	case err != nil:
+		if in.Expect == "ok" {
+			c.Fail("reject:frame", "a well-formed frame (right magic, length <= MAX_PAYLOAD_LEN, right checksum, payload written by the implementation or kept verbatim) is rejected", in, err.Error(), "accepted")
+		}
 		m := err.Error()
 		switch {
 		case len(stream) < 24:
@@ -731,11 +740,11 @@ func doFrame(c *hx.Ctx, in input) {
 			}
 			if cls != "" {
 				c.Count("lenient:" + cls)
-				c.Fail(cls, "accepted frame is not reproduced by WriteMessage", in, hx.Hex(back), hx.Hex(stream[:24+int(hLen)]))
+				c.Fail(cls, "accepted frame is not reproduced by WriteMessage", in, hexHead(back), hexHead(stream[:24+int(hLen)]))
 			} else if in.Emb && !embeddedRoundTrips(hCmd, payload) {
 				c.Count("embedded-codec-not-canonical:" + cmdLabel(hCmd))
 			} else {
-				c.Fail("reserialize:frame", "accepted frame is not reproduced by WriteMessage", in, hx.Hex(back), hx.Hex(stream[:24+int(hLen)]))
+				c.Fail("reserialize:frame", "accepted frame is not reproduced by WriteMessage", in, hexHead(back), hexHead(stream[:24+int(hLen)]))
 			}
 		} else {
 			c.Count("frame-roundtrip-exact")
@@ -760,7 +769,7 @@ func doFrame(c *hx.Ctx, in input) {
 			c.Fail("alloc:frame", "ReadMessage allocated beyond the maximum payload size / the bytes present", in, alloc, fmt.Sprintf("<= %d", bound))
 		}
 	}
-	c.Nontrivial("f" + fmt.Sprint(in.Magic) + in.Stream)
+	c.Nontrivial("f" + fmt.Sprint(in.Magic, in.Pad, in.PadByte) + in.Stream)
 	c.Sample(map[string]interface{}{"kind": "frame", "label": in.Label, "len": len(stream), "outcome": out})
 	if in.Emb || in.NoCoq || out == "" {
 		return
@@ -828,3 +837,10 @@ func run(c *hx.Ctx, in input) {
 func jsonUnmarshal(raw json.RawMessage, v interface{}) error { return json.Unmarshal(raw, v) }
 
 var _ = account.NewAccount
+
+func hexHead(b []byte) string {
+	if len(b) > 4096 {
+		return hx.Hex(b[:4096]) + fmt.Sprintf("...(%d bytes)", len(b))
+	}
+	return hx.Hex(b)
+}
